@@ -2,7 +2,7 @@
 import props.catalog_all  # noqa: F401
 from vlib import harness as H
 from vlib.runner import run_property
-from props.common import (cell_obligations, rot, seed, COMMON_ASSUMPTIONS,
+from props.common import (cell_obligations, select_cells, rot, seed, COMMON_ASSUMPTIONS,
                           REAL_FUNCTIONS)
 from props import findings
 
@@ -16,7 +16,7 @@ def check_call(cell, cfg, args):
 
 
 def generate(tier):
-    cells = list(H.CATALOG.values())
+    cells = select_cells('C02', tier, list(H.CATALOG.values()), 3)
     if tier == 'quick':
         cfgs = lambda c: [PAIRS_QUICK[rot(c.cid, seed() + 2, 3)]]  # noqa
         timeout = 90
